@@ -37,8 +37,9 @@
   (`filter_tables`), as in C14.lean.  HYPOTHESES of the `filter_tables` theorems as there: valid table arguments, right
   table of fewer than 2⁴⁰ rows, tokenizer used in its current mode; both calls of the inclusion on the same arguments.
 
-  NOT COVERED: the inclusion under OVERLAP with a FLOAT threshold (prefix length `⌊rn(rn(n − t) + 1)⌋`; the same
-  argument needs `rn(rn(n − t) + 1) ≥ 1 → ⌈t⌉ ≤ n`, not proved); a sufficient condition on `t` alone (e.g. `t·2²⁰`
+  The inclusion under OVERLAP with a FLOAT threshold (prefix length `⌊rn(rn(n − t) + 1)⌋`) is in
+  `C14_overlap_float.lean` (`position_subset_size_overlap_float`, every double `t ≤ 2⁵³`).
+  NOT COVERED: a sufficient condition on `t` alone (e.g. `t·2²⁰`
   integral) for the exactness hypothesis other than `t` integral.
 -/
 import SSJ.Proofs.PruneMore
